@@ -23,7 +23,7 @@ LEVEL_TEXT = {
  "C15": "Bounded model checking with a symbolic writer (1..8 bytes accepted per call, optional failure at any call) and symbolic truncation offsets for the scalar codecs every composite codec is built from, and a whole ciphertext written to a writer that accepts 3 or 8 bytes per call and fails at each call index in turn.",
  "C16": "Bounded model checking of the generator's buffering logic across the refill boundary with the stream as a symbolic array (chunking independence incl. reads that start on the last buffer byte, alignment of word reads, one counter step per refill), and well-formedness of ternary / centred-binomial / uniform samples for EVERY output of a nondeterministic randomness source (same small signed value in every RNS component, |error| <= 21, uniform below each modulus). Hash quality, freshness of entropy and sampler distributions are outside.",
  "C17": "Sequential histories only: the secret-key-power cache of a shared Decryptor never shrinks and a smaller request after a larger one returns the same plaintext. Kani has no threads: preemptive interleavings are not decided (stated honestly; see DESIGN A.6).",
- "C18": "Bounded model checking of the share-revelation protocol for 3 parties under both delivery orders through the real serializer, refusal to finish when a message is missing, histories with receive-before-send and redelivery (the party broadcasts exactly its own share); thorough: final decoding of a collectively computed BGV phase.",
+ "C18": "Bounded model checking of the share-revelation protocol for 3 parties under both delivery orders through the real serializer, refusal to finish when a message is missing, histories with receive-before-send and redelivery (the party broadcasts exactly its own share); thorough: final decoding of a collectively computed BGV phase in NTT and coefficient form (the defect this harness found was repaired: fix 792d8a7).",
  "C19": "Bounded model checking: negacyclic_shift = X^s * p for every shift (N=4, 8), extract_lwe + assemble_lwe preserves coefficient i of the phase in every RNS component with three coefficient moduli (N=2, every key) and for every i at N=4 (thorough).",
 }
 NOTE = {
